@@ -1,7 +1,10 @@
 package props
 
 import (
+	"fmt"
+
 	"verif/mc/engine"
+	"verif/mc/ref"
 )
 
 func init() {
@@ -16,6 +19,27 @@ func init() {
 		},
 		Phases: func(tier string) []engine.Phase {
 			return []engine.Phase{
+				{Name: "textual-prefix-lists", ShardDepth: 2, Bounds: engine.Bounds{InputDev: -1},
+					Rule: "lists of 2-3 voxels whose ID strings are prefixes / decimal extensions of one another in 4 orders x h in {7,13,20,35} x v in {2,3,20} x merge targets within -1..0 of the list zooms: result = model, region preserved, idempotent; non-trivial = distinct (list, target)",
+					Body: func(c *engine.Ctx) {
+						h := []int64{7, 13, 20, 35}[c.In("h", 4)]
+						v := []int64{2, 3, 20}[c.In("v", 3)]
+						ls := prefixLists(h, v)
+						l := ls[c.In("list", len(ls))]
+						th := h - int64(c.In("dh", 2))
+						tv := v - int64(c.In("dv", 2))
+						if mergeUnitCells(l, th, tv) > maxUnitCells {
+							c.Skip("merge-unit-cells-over-budget")
+						}
+						ids := ref.Exts(l)
+						viol, _ := checkMerge("C04", ids, l, th, tv)
+						c.Observe("%v %d %d -> %d", ids, th, tv, len(viol))
+						c.Nontrivial(fmt.Sprint(ids, th, tv))
+						c.Outcome(fmt.Sprint(ids, th, tv))
+						for _, x := range viol {
+							c.Violation(x.Sig, x.Detail)
+						}
+					}},
 				{Name: "voxelsets-machine-merge", Custom: runVoxWorlds("C04", "M", tier), ReplayCustom: replayVoxWorld("C04", "M", tier),
 					Rule: "BFS over worlds; ops: M[h,v] for a 5x5 window of target zooms (verified: result set = model, no duplicates, region preserved, idempotent, MergeSpatialIds agrees on h=v states), Z[h,v] and drop/add (drivers producing complete groups, groups missing one cell, groups straddling f=-1|0, nested and mixed-zoom entries); non-trivial = distinct (state, M target) whose result differs from the state"},
 			}
